@@ -75,6 +75,8 @@ def run(chk, replay=None):
         chk.assumptions += ["SIDs are well-formed (revision 1, exactly 8+4n bytes); truncated buffers belong to C07",
                             "authorities >= 2^32: both the MS-DTYP hex form and the all-decimal form are accepted",
                             "DNs: attribute types without surrounding spaces, single-valued RDNs; lower-case 'dc=' and empty values are drift (not the form AD emits)"]
+        # ---- the same entry points called by 8 goroutines at once (race-detector build): results as when called alone
+        vlib.parallel_callers(chk, "ldap")
     finally:
         shutil.rmtree(d, ignore_errors=True)
 
